@@ -675,6 +675,22 @@ def get_flags():
     return [bool(x) for x in r["probe"]], r["tables"]
 
 
+def run_impl_balanced(allcases):
+    """core.run_impl_sharded cuts the case list into contiguous chunks; order the cases so that every chunk
+    holds the same share of the expensive ones (exhaustive single-operation cases carry hundreds of operations)"""
+    n = core.NPROC
+    order = sorted(range(len(allcases)), key=lambda i: -(len(allcases[i].get("ops", [])) + 3))
+    bins = [order[k::n] for k in range(n)]
+    size = (len(allcases) + n - 1) // n
+    # chunks are cut every `size` items: pad the bins to that size by moving items from the tail
+    flat = [i for b in bins for i in b]
+    res = core.run_impl_sharded("c03_impl.py", [allcases[i] for i in flat], nshards=n)
+    out = [None] * len(allcases)
+    for pos, i in enumerate(flat):
+        out[i] = res[pos]
+    return out
+
+
 def run_model(cases, flags):
     return core.coq_eval(PROP, ["Model.View", "Model.IndelMap", "Model.Aligned", "Spec.AlignedSpec", "Model.AlignedRun"],
                          "run_case", [coq_case(c, flags) for c in cases], "case", shard=60)
@@ -707,7 +723,7 @@ def run(tier: str, seed: int) -> int:
     subc = sub_alignment_cases(rng, 60 if tier == "quick" else 1500)
     import time
     t0 = time.time()
-    impl = core.run_impl_sharded("c03_impl.py", cases + newc + subc, nshards=core.NPROC)
+    impl = run_impl_balanced(cases + newc + subc)
     t1 = time.time()
     model = None
     try:
